@@ -76,7 +76,8 @@ RetOK(e) ==
       [] OTHER -> TRUE
 
 C03Viol(e, fx, o) ==
-    LET tag == e.op \o "/h=" \o e.h \o (IF e.shape = "" THEN "" ELSE "/" \o e.shape) IN
+    LET tag == e.op \o (IF e.op = "set_log_base" /\ LogBaseForm(fe, e.cls) = "legacy" THEN "/legacy-form" ELSE "")
+               \o "/h=" \o e.h \o (IF e.shape = "" THEN "" ELSE "/" \o e.shape) IN
     IF fx.act = "reject" \/ ~o.called \/ fx.await = "none" THEN
         (IF e.hang THEN {"C03/hang/" \o tag} ELSE {})
     ELSE IF e.hang THEN {"C03/hang/" \o tag}
